@@ -130,6 +130,10 @@ func composeYAML(c cmpCfg, rng *rand.Rand) string {
 		if kind == "fail" {
 			return fmt.Sprintf("exit 1 # %s", tag)
 		}
+		if strings.HasSuffix(tag, "-ta") && rng.Intn(2) == 0 {
+			// an after hook that outlasts a pass of the scheduling loop: the stage is not finished before it is
+			return fmt.Sprintf("sleep 0.2 # %s", tag)
+		}
 		return fmt.Sprintf("sleep 0.0%d # %s", rng.Intn(3), tag)
 	}
 	used := false
@@ -278,6 +282,7 @@ func ComposeCheck(env *core.Env, rep *core.Report, k int, models ...string) map[
 		evs     []Event
 		bad     string
 		crashed bool
+		overlap string
 	}
 	out := make([]exec, k)
 	letter := map[int]string{0: "W", 1: "R", 2: "S", 3: "D", 4: "E", 5: "C"}
@@ -368,6 +373,34 @@ func ComposeCheck(env *core.Env, rep *core.Report, k int, models ...string) map[
 			out[i].bad = "Schedule did not return (no sched-exit event); exit status " + fmt.Sprint(res.Exit)
 			return
 		}
+		// C01 read directly off the log (whatever else the trace specification rejects first): no job
+		// of a stage (hooks included) starts while a job of a stage it depends on has not ended
+		{
+			firstStart, lastEnd := map[int]int{}, map[int]int{}
+			for k, ev := range evs {
+				sidx, isStage := ev["s"].(int)
+				if !isStage {
+					continue
+				}
+				switch ev["e"] {
+				case "CmdStart":
+					if _, seen := firstStart[sidx]; !seen {
+						firstStart[sidx] = k
+					}
+				case "CmdEnd":
+					lastEnd[sidx] = k
+				}
+			}
+			for s2 := 1; s2 <= c.N; s2++ {
+				for _, d2 := range c.Deps[s2-1] {
+					if fs, ok1 := firstStart[s2]; ok1 {
+						if le, ok2 := lastEnd[d2]; ok2 && le > fs {
+							out[i].overlap = fmt.Sprintf("stage s%d depends on s%d; a job of s%d started (event %d) before the last job of s%d had ended (event %d)", s2, d2, s2, fs, d2, le)
+						}
+					}
+				}
+			}
+		}
 		// what the user is told: the exit status and the summary on stdout. The wording of the summary is
 		// not fixed by anything: a header or a phrase that is not recognised makes that part unknown
 		// ("?"), which the trace specification accepts
@@ -426,6 +459,9 @@ func ComposeCheck(env *core.Env, rep *core.Report, k int, models ...string) map[
 				rep.Add(core.Finding{Prop: "C02", Key: "C02:binary:run-crashed-without-an-outcome", What: o.bad, Detail: o.cfg})
 			}
 			continue
+		}
+		if o.overlap != "" {
+			rep.Add(core.Finding{Prop: "C01", Key: "C01:binary:job-of-a-dependency-still-running", What: o.overlap, Detail: o.cfg})
 		}
 		byN[o.cfg.N] = append(byN[o.cfg.N], i)
 	}
